@@ -4,7 +4,8 @@
 //   ptc replay   <graph.ndjson> <edges|pairs> <walks>   replay TLC's state graph (spec -> impl)
 //   ptc record   <out.ndjson> <sample|all> <n> <len>    random histories on real terms (impl -> spec)
 //   ptc costconv <scenarios.ndjson>                     cost sequences through the real callback
-//   ptc timed    <out.ndjson> <nexec> <jobs>            timed / periodic forms with timestamps
+//   ptc timed    <out.ndjson> <nexec> <jobs> [races]    timed / periodic forms with timestamps;
+//                                                       races: rounds of terminate() during an in-flight predicate
 //
 // Terms are built exclusively from the library's factory functions; user predicates read harness
 // flags and count their invocations.
@@ -745,11 +746,133 @@ static void periodicExec(Exec &x, vt::Rng &rng)
                         {"threadCalls", c2 - st->callerCalls.load()}});
 }
 
-static int timedMain(const std::string &out, long nexec, int jobs)
+// terminate() landing while the evaluator thread is INSIDE the predicate.  The ordering is forced by
+// the predicate itself, not by the clock: its armed invocation announces itself, then waits until a
+// second thread's terminate() has RETURNED, and only then returns false.  Afterwards the caller waits
+// until the evaluator thread has exited (so whatever it stores after the predicate has been stored)
+// and polls: every eval() after terminate() returned must be true, also through or(never, c) and
+// and(always, c).  All waits are bounded; a round whose bound expires is discarded, never judged.
+struct RState
+{
+    std::atomic<int> calls{0}, callerCalls{0};
+    std::atomic<bool> inPred{false}, termDone{false}, gaveUp{false}, threadExited{false};
+    int armAt{1};
+    std::thread::id caller;
+};
+struct ExitFlag
+{
+    std::shared_ptr<RState> st;
+    ~ExitFlag()
+    {
+        if (st)
+            st->threadExited = true;
+    }
+};
+static bool waitFor(const std::atomic<bool> &f, long maxMs)
+{
+    long long t0 = steadyUs();
+    for (long k = 0; !f.load(); ++k)
+    {
+        if (steadyUs() - t0 > maxMs * 1000LL)
+            return false;
+        if (k % 64 == 63)
+            napUs(100);
+        else
+            std::this_thread::yield();
+    }
+    return true;
+}
+
+static bool raceExec(Exec &x, vt::Rng &rng)
+{
+    const int p = 1;
+    auto st = std::make_shared<RState>();
+    st->caller = std::this_thread::get_id();
+    st->armAt = 1 + rng.below(3);
+    ob::PlannerTerminationConditionFn fn = [st] {
+        static thread_local ExitFlag onExit;
+        int k = ++st->calls;
+        if (std::this_thread::get_id() == st->caller)
+            ++st->callerCalls;
+        else
+            onExit.st = st;
+        if (k == st->armAt)
+        {
+            st->inPred = true;                 // "I am being computed"
+            if (!waitFor(st->termDone, 20000))  // ... until terminate() has returned
+                st->gaveUp = true;
+        }
+        return false;
+    };
+    long long cs = x.stamp();
+    auto c = std::make_unique<PTC>(fn, p / 1000.0);
+    long long ce = x.stamp();
+    PTC orN = ob::plannerOrTerminationCondition(ob::plannerNonTerminatingCondition(), *c);
+    PTC andA = ob::plannerAndTerminationCondition(ob::plannerAlwaysTerminatingCondition(), *c);
+    x.ev.push_back(json{{"e", "CreatePeriodic"}, {"p", p}, {"cs", Exec::floorMs(cs)}, {"ce", Exec::ceilMs(ce)}, {"race", true}});
+    auto evalVia = [&](int via) {
+        int cb = st->calls.load();
+        long long tb = x.stamp();
+        bool r = via == 0 ? c->eval() : via == 1 ? orN() : andA();
+        long long ta = x.stamp();
+        x.ev.push_back(json{{"e", "Eval"}, {"tb", Exec::floorMs(tb)}, {"ta", Exec::ceilMs(ta)}, {"r", r}, {"ft", 0},
+                            {"cb", cb}, {"fa", 0}, {"cc", st->callerCalls.load()},
+                            {"via", via == 0 ? "self" : via == 1 ? "or(never,c)" : "and(always,c)"}});
+    };
+    // a second thread requests termination as soon as the armed predicate invocation is in flight
+    std::atomic<bool> t2ok{false};
+    std::thread t2([&] {
+        if (!waitFor(st->inPred, 20000))
+            return;
+        PTC cp(*c);
+        (rng.below(2) ? cp : *c).terminate();
+        t2ok = true;
+        st->termDone = true;   // terminate() has returned: release the predicate
+    });
+    // meanwhile the caller evaluates: false until terminate (the predicate never returns true)
+    for (int i = 0; i < 3 && !st->inPred.load(); ++i)
+        evalVia(i % 3);
+    t2.join();
+    st->termDone = true;  // never leave the predicate waiting
+    bool conclusive = t2ok.load() && !st->gaveUp.load();
+    if (conclusive)
+    {
+        x.ev.push_back(json{{"e", "Terminate"}, {"during", "predicate in flight"}, {"call", st->armAt}});
+        // the evaluator leaves its loop once it sees the request; after it exited nothing is stored any more
+        bool exited = waitFor(st->threadExited, 5000);
+        napUs(2000);
+        for (int k = 0; k < 200; ++k)
+        {
+            evalVia(0);
+            evalVia(1);
+            evalVia(2);
+            if (k % 25 == 24)
+                napUs(300);
+        }
+        x.ev.back()["threadExited"] = exited;
+    }
+    long long db = x.stamp();
+    *t_destroyBegan = steadyUs() + 1;
+    orN = ob::plannerNonTerminatingCondition();
+    andA = ob::plannerNonTerminatingCondition();
+    c.reset();
+    *t_destroyBegan = 0;
+    long long da = x.stamp();
+    int c1 = st->calls.load();
+    napUs(3000);
+    int c2 = st->calls.load();
+    x.ev.push_back(json{{"e", "Destroy"}, {"tb", Exec::floorMs(db)}, {"ta", Exec::ceilMs(da)}, {"c1", c1}, {"c2", c2}});
+    return conclusive;
+}
+
+static int timedMain(const std::string &out, long nexec, int jobs, long races)
 {
     g_sysEpoch = ompl::time::now();
     g_steadyEpoch = Steady::now();
+    const long plain = nexec;
+    nexec += races;   // the race rounds come last
     std::vector<Exec> ex(nexec);
+    std::vector<char> inconclusive(nexec, 0);
     std::atomic<long> next{0};
     std::atomic<bool> done{false};
     const unsigned long long seed = vt::envSeed();
@@ -782,7 +905,9 @@ static int timedMain(const std::string &out, long nexec, int jobs)
                 if (i >= nexec)
                     break;
                 vt::Rng rng(seed * 1000003ULL + (unsigned long long)i * 7919ULL + 5);
-                if (i % 2 == 0)
+                if (i >= plain)
+                    inconclusive[i] = !raceExec(ex[i], rng);
+                else if (i % 2 == 0)
                     timedExec(ex[i], rng);
                 else
                     periodicExec(ex[i], rng);
@@ -793,15 +918,23 @@ static int timedMain(const std::string &out, long nexec, int jobs)
     done = true;
     watchdog.join();
     vt::Trace tr(out);
-    long kept = 0, disturbed = 0, evals = 0, trues = 0;
-    for (auto &x : ex)
+    long kept = 0, disturbed = 0, evals = 0, trues = 0, raceRounds = 0, raceInconclusive = 0;
+    for (long i = 0; i < nexec; ++i)
     {
+        Exec &x = ex[i];
+        if (inconclusive[i])
+        {
+            ++raceInconclusive;   // a bounded wait expired: the forced ordering did not happen
+            continue;
+        }
         if (x.disturbed)
         {
             ++disturbed;
             continue;
         }
         ++kept;
+        if (i >= plain)
+            ++raceRounds;
         tr.emit(json{{"e", "Reset"}});
         for (auto &e : x.ev)
         {
@@ -814,7 +947,8 @@ static int timedMain(const std::string &out, long nexec, int jobs)
         }
     }
     std::cout << "RECORDED " << json{{"events", tr.count()}, {"executions", kept}, {"clockDisturbed", disturbed},
-                                      {"evals", evals}, {"true", trues}}.dump()
+                                      {"evals", evals}, {"true", trues}, {"raceRounds", raceRounds},
+                                      {"raceInconclusive", raceInconclusive}}.dump()
               << std::endl;
     return 0;
 }
@@ -831,8 +965,8 @@ int main(int argc, char **argv)
     if (mode == "costconv" && argc > 2)
         return costconvMain(argv[2]);
     if (mode == "timed" && argc > 4)
-        return timedMain(argv[2], atol(argv[3]), atoi(argv[4]));
+        return timedMain(argv[2], atol(argv[3]), atoi(argv[4]), argc > 5 ? atol(argv[5]) : 0);
     fprintf(stderr, "usage: ptc replay <graph> <edges|pairs> <walks> | record <out> <sample|all> <n> <len> | "
-                    "costconv <scenarios> | timed <out> <nexec> <jobs>\n");
+                    "costconv <scenarios> | timed <out> <nexec> <jobs> [races]\n");
     return 2;
 }
